@@ -10,25 +10,25 @@ def U16OK (r : Rune) : Prop := r.u16 = if r.width = 4 then 2 else 1
 def bump (pos : List Nat) (r : Rune) : List Nat := bumpPos pos (r.cp == 10) r.u16
 
 /-- per-line UTF-16 lengths of the consumed runes, current line first (a line's length includes its `\n`) -/
-def posOf (done : List Rune) : List Nat := done.foldl bump [0]
+def linesOf (done : List Rune) : List Nat := done.foldl bump [0]
 
 def Track (inp : List Rune) (l : L) : Prop :=
   (∀ r ∈ inp, U16OK r) ∧
-  ∃ done, inp = done ++ l.cur.rest ∧ l.pos = posOf done ∧ ∀ r, l.cur.last = some r → ∃ d0, done = d0 ++ [r]
+  ∃ done, inp = done ++ l.cur.rest ∧ l.pos = linesOf done ∧ ∀ r, l.cur.last = some r → ∃ d0, done = d0 ++ [r]
 
 def TInv (inp : List Rune) (l : L) : Prop := Inv l ∧ Track inp l
 
-theorem posOf_snoc (done : List Rune) (r : Rune) : posOf (done ++ [r]) = bump (posOf done) r := by
-  simp [posOf, List.foldl_append]
+theorem linesOf_snoc (done : List Rune) (r : Rune) : linesOf (done ++ [r]) = bump (linesOf done) r := by
+  simp [linesOf, List.foldl_append]
 
 theorem bump_ne_nil (pos : List Nat) (r : Rune) : bump pos r ≠ [] := by
   unfold bump bumpPos
   cases pos <;> simp only [] <;> split <;> simp
 
-theorem posOf_ne_nil (done : List Rune) : posOf done ≠ [] := by
+theorem linesOf_ne_nil (done : List Rune) : linesOf done ≠ [] := by
   rcases List.eq_nil_or_concat done with rfl | ⟨d, r, rfl⟩
-  · simp [posOf]
-  · rw [List.concat_eq_append, posOf_snoc]; exact bump_ne_nil _ _
+  · simp [linesOf]
+  · rw [List.concat_eq_append, linesOf_snoc]; exact bump_ne_nil _ _
 
 theorem track_next (inp : List Rune) (l : L) (h : Track inp l) : Track inp (l.next).1 := by
   obtain ⟨hu, done, hin, hpos, hlast⟩ := h
@@ -42,7 +42,7 @@ theorem track_next (inp : List Rune) (l : L) (h : Track inp l) : Track inp (l.ne
   | cons r rs =>
     simp only []
     refine ⟨done ++ [r], by simp [hin, hrest], ?_, ?_⟩
-    · rw [posOf_snoc, ← hpos]; rfl
+    · rw [linesOf_snoc, ← hpos]; rfl
     · intro x hx; simp only [Option.some.injEq] at hx; subst hx; exact ⟨done, rfl⟩
 
 theorem track_same (inp : List Rune) (l l' : L) (hc : l'.cur = l.cur) (hp : l'.pos = l.pos) (h : Track inp l) : Track inp l' := by
@@ -93,13 +93,13 @@ theorem track_backup (inp : List Rune) (l : L) (hi : Inv l) (h : Track inp l) (h
     have hru : U16OK r := hu r (by rw [hin, hd0]; simp)
     have hun : (unbumpPos l).cur.unread = some { rest := r :: l.cur.rest, last := none } := by
       rw [unbumpPos_cur]; simp [Cur.unread, hl]
-    have hq := posOf_ne_nil d0
-    obtain ⟨p, ps, hpp⟩ : ∃ p ps, posOf d0 = p :: ps := by
-      cases hq' : posOf d0 with
+    have hq := linesOf_ne_nil d0
+    obtain ⟨p, ps, hpp⟩ : ∃ p ps, linesOf d0 = p :: ps := by
+      cases hq' : linesOf d0 with
       | nil => exact absurd hq' hq
       | cons p ps => exact ⟨p, ps, rfl⟩
     have hposl : l.pos = bumpPos (p :: ps) (r.cp == 10) r.u16 := by
-      rw [hpos, hd0, posOf_snoc, hpp]; rfl
+      rw [hpos, hd0, linesOf_snoc, hpp]; rfl
     have hub := unbumpPos_pos l p ps _ _ (u16_pos r) (by rw [hru, hw]) hposl
     apply track_dropS
     simp only [hun]
